@@ -21,7 +21,9 @@ CLAIMED = True
 CONFIG = {'assumptions': [
     'file descriptions are tabulated from freshly opened objects by sequential parsing; ids stand for the '
     'full serialisation of headers, entries (tag, every attribute), line-program entries, CFI entries',
-    'a DIE is addressed as get_CU_at(u).get_DIE_from_refaddr(o); generators live in slots',
+    'a DIE is addressed as get_CU_at(u).get_DIE_from_refaddr(o); generators live in slots; the client keeps the '
+    'list of its last CFI_entries()/EH_CFI_entries() call and decodes entries of that list; a decoded table is '
+    'observed as its rows (register rules in row order) and reg_order',
     'supplementary_dwarfinfo is None; type units (.debug_types) are exercised against the fresh-object '
     'oracle only', ]}
 LEVEL = {'text': 'Machine-checked refinement of a state machine (caches, object heap with identity, link fields, memo '
@@ -29,7 +31,8 @@ LEVEL = {'text': 'Machine-checked refinement of a state machine (caches, object 
                  '(cache lists sorted, duplicate-free and parallel; every cached unit/entry/abbreviation table/line '
                  'program is the pure parse at its key; unit and entry objects unique per offset; parent/terminator '
                  'links true; memo fields equal the pure result) holds initially, and EVERY valid operation - queries, '
-                 'get_parent with its ancestor search, creating and resuming iter_CUs/iter_DIEs/iter_children/'
+                 'get_parent with its ancestor search, get_decoded() of call-frame entries (memo per entry, FDEs through their '
+                 'CIE), creating and resuming iter_CUs/iter_DIEs/iter_children/'
                  'iter_siblings/iter_sections/iter_symbols/iter_tags, stream repositioning - returns the stateless '
                  'answer and keeps the invariant; lifted by induction to every finite history, with corollaries '
                  '(answer after any history = answer of a fresh object, repeated queries equal, generator element = '
@@ -45,7 +48,8 @@ LEVEL = {'text': 'Machine-checked refinement of a state machine (caches, object 
                  '(offset-exact lookups name a unit/entry start). What the bytes decode to is abstract (parse '
                  'functions of the file description); decoding itself is the subject of C04/C05/C06.'}
 RULE = ('cases: (file, history, last operation); bfs = every abstract state reachable within the depth bound x every '
-        'operation of the alphabet on 3 synthesized files, rnd = random histories on seed binaries with a Disturb '
+        'operation of the alphabet on 3 synthesized files (three alphabets: DWARF, ELF, and call-frame decoding in every '
+        'order, two levels deeper), rnd = random histories on seed binaries with a Disturb '
         'after every call (minimised when failing). distinct = hash(kind, file, history); non-trivial = history '
         'of length >= 2 or an operation that fills a cache')
 
@@ -58,7 +62,7 @@ NSLOTS = 2
 LOCAL_REF_FORMS = ('DW_FORM_ref1', 'DW_FORM_ref2', 'DW_FORM_ref4', 'DW_FORM_ref8', 'DW_FORM_ref', 'DW_FORM_ref_udata')
 OTHER_REF_FORMS = ('DW_FORM_ref_sig8', 'DW_FORM_ref_sup4', 'DW_FORM_ref_sup8', 'DW_FORM_GNU_ref_alt')
 DWARF_OPS = {'CUAt', 'CUContaining', 'TopDIE', 'DIEAt', 'DIEGlobal', 'Parent', 'FollowRef', 'LineProg', 'LineEntries',
-             'CFI', 'NewIterCUs', 'NewIterDIEs', 'NewIterChildren', 'NewIterSiblings'}
+             'CFI', 'CFIDecoded', 'NewIterCUs', 'NewIterDIEs', 'NewIterChildren', 'NewIterSiblings'}
 
 
 # ------------------------------------------------------------------ serialisation of observed values
@@ -117,6 +121,12 @@ def ser_cfi(entries):
     return ('cfi', tuple(out))
 
 
+def ser_decoded(dec):
+    """CFIEntry.get_decoded(): rows (pc, CFA rule, the register rules of the row in their order) and reg_order"""
+    return ('decoded', tuple(tuple((repr(k), repr(v)) for k, v in row.items()) for row in dec.table),
+            tuple(dec.reg_order))
+
+
 def ser_section(sec):
     return ('section', type(sec).__name__, tuple((k, repr(v)) for k, v in sec.header.items()))
 
@@ -151,6 +161,7 @@ class Opened:
         self.dw = fresh_dwarf(meta) if (meta['has_dwarf'] and 'D' in parts) else None
         self.slots = [None] * NSLOTS
         self.counts = [0] * NSLOTS
+        self.cfi = [None, None]          # the entry lists the client holds (.debug_frame, .eh_frame)
         self.ids = meta['ids']
 
     # ---- streams
@@ -234,7 +245,15 @@ class Opened:
             return ['vals', self.ids.of(ser_lpentries(lp.get_entries()))]
         if k == 'CFI':
             es = dw.EH_CFI_entries() if op[1] else dw.CFI_entries()
+            self.cfi[1 if op[1] else 0] = es
             return ['vals', self.ids.of(ser_cfi(es))]
+        if k == 'CFIDecoded':
+            eh = 1 if op[1] else 0
+            if self.cfi[eh] is None:
+                self.cfi[eh] = dw.EH_CFI_entries() if eh else dw.CFI_entries()
+            if op[2] < 0:
+                raise IndexError(op[2])
+            return ['vals', self.ids.of(ser_decoded(self.cfi[eh][op[2]].get_decoded()))]
         if k == 'NewIterCUs':
             self.slots[op[1]], self.counts[op[1]] = dw.iter_CUs(), 0
             return 'done'
@@ -333,10 +352,15 @@ class Opened:
         m = elf._section_name_map if elf is not None else None
         secmap = 'none' if m is None else [[self.ids.name(n), i] for n, i in m.items()]
         m = self.symtab._symbol_name_map if self.symtab is not None else None
-        symmap = 'none' if m is None else [[self.ids.name(n), list(l)] for n, l in m.items()]
+        # only the tabulated prefix of the symbol table is known to the model (meta['num_symbols'])
+        nsym = self.meta['num_symbols']
+        symmap = 'none' if m is None else [[self.ids.name(n), [i for i in l if i < nsym]] for n, l in m.items()
+                                          if any(i < nsym for i in l)]
         numtags = self.dyn._num_tags if self.dyn is not None else -1
+        held = ['none' if es is None else [int(getattr(e, '_decoded_table', None) is not None) for e in es]
+                for es in self.cfi]
         return [keys, units, abbrevs, lines, secmap, symmap, numtags, self.cursors(),
-                [self.frame_state(i) for i in range(NSLOTS)]]
+                [self.frame_state(i) for i in range(NSLOTS)], held[0], held[1]]
 
     def frame_state(self, slot):
         g = self.slots[slot]
@@ -518,6 +542,8 @@ def tabulate_unit_tree(image, u, ids, fresh_each, stub=False, limit=10 ** 9):
             cu.get_top_DIE()
         _set_sentinels(dw, skip=(1, 2))
         die = cu.get_DIE_from_refaddr(pos)
+        if die.size <= 0:
+            raise ValueError('unit %d: entry at %d has size %d' % (u, pos, die.size))
         raw = _raw_of(die, ids, _read_effects(dw, skip=(1, 2)))
         count += 1
         if count > limit:
@@ -536,6 +562,26 @@ def tabulate_unit_tree(image, u, ids, fresh_each, stub=False, limit=10 ** 9):
             return [n['off'], n['raw'], [], 0, _dummy_raw()]
         return [n['off'], n['raw'], [conv(k) for k in n['kids']], n['toff'], n['traw']]
     return conv(root), abbrev_end, count
+
+
+def tabulate_cfi(image, ids, eh):
+    """[kind, index of the entry's CIE in the list, id of its decoded table] per entry; every table is decoded
+    on a freshly fetched list on which nothing else was decoded before"""
+    from elftools.dwarf.callframe import CIE, FDE
+    def fetch():
+        d = _fresh_dw(image)
+        return d.EH_CFI_entries() if eh else d.CFI_entries()
+    es = fetch()
+    out = []
+    for i, e in enumerate(es):
+        if isinstance(e, CIE):
+            out.append([0, 0, ids.of(ser_decoded(fetch()[i].get_decoded()))])
+        elif isinstance(e, FDE):
+            ci = _index_is(es, e.cie)
+            out.append([1, ci, ids.of(ser_decoded(fetch()[i].get_decoded()))])
+        else:
+            out.append([2, 0, 0])
+    return out
 
 
 def _dummy_raw():
@@ -615,6 +661,7 @@ def tabulate(meta, fresh_each=True, die_budget=4000):
     # ---------------- DWARF
     units, abbrevs, lines = [], {}, {}
     cfi, ehcfi = [], []
+    cfi_ents, ehcfi_ents = [], []
     info_size = abbrev_size = 0
     meta['has_dwarf'] = False
     meta['units'] = []
@@ -665,22 +712,27 @@ def tabulate(meta, fresh_each=True, die_budget=4000):
             if dw.debug_frame_sec is not None and dw.debug_frame_sec.size > 0:
                 d3 = _fresh_dw(image)
                 cfi = [ids.of(ser_cfi(d3.CFI_entries())), d3.debug_frame_sec.stream.tell()]
+                cfi_ents = tabulate_cfi(image, ids, False)
             if dw.eh_frame_sec is not None and dw.eh_frame_sec.size > 0:
                 try:
                     d3 = _fresh_dw(image)
                     ehcfi = [ids.of(ser_cfi(d3.EH_CFI_entries())), d3.eh_frame_sec.stream.tell()]
+                    ehcfi_ents = tabulate_cfi(image, ids, True)
                 except Exception:
-                    ehcfi = []
+                    ehcfi, ehcfi_ents = [], []
             meta['has_dwarf'] = True
         except Exception as ex:      # the file is outside what this harness can tabulate: ELF level only
             notes.append('DWARF of %s not tabulated: %s: %s' % (meta['name'], type(ex).__name__, ex))
             units, abbrevs, lines, cfi, ehcfi, info_size, abbrev_size = [], {}, {}, [], [], 0, 0
+            cfi_ents, ehcfi_ents = [], []
             meta['units'] = []
     meta['has_cfi'], meta['has_ehcfi'] = bool(cfi), bool(ehcfi)
+    meta['cfi_ents'] = [cfi_ents, ehcfi_ents]
     meta['lines'] = lines
     return [info_size, units, abbrev_size, list(abbrevs.values()), list(lines.values()), cfi, ehcfi,
             [len(image), shoff, shnum, shentsize, shstr_base], shdrs, list(strs.values()),
-            [phoff, phentsize], phdrs, [sym_base, sym_entsize, strtab_base], syms, [dyn_base, dyn_entsize], dyns]
+            [phoff, phentsize], phdrs, [sym_base, sym_entsize, strtab_base], syms, [dyn_base, dyn_entsize], dyns,
+            cfi_ents, ehcfi_ents]
 
 
 # ------------------------------------------------------------------ files
@@ -701,7 +753,16 @@ def load_file(name):
             meta = dict(name=name, image=fh.read(), labels={}, synthesized=False, string_offsets=[0, 1])
     meta['ids'] = Ids()
     meta['ids'].name('.no-such-name')
-    meta['desc'] = tabulate(meta, fresh_each=meta['synthesized'], die_budget=10 ** 9 if meta['synthesized'] else 3000)
+    try:
+        meta['desc'] = tabulate(meta, fresh_each=meta['synthesized'], die_budget=10 ** 9 if meta['synthesized'] else 3000)
+        if meta['synthesized'] and not meta['has_dwarf']:
+            raise ValueError('; '.join(meta.get('notes', [])) or 'no DWARF tabulated')
+    except Exception as ex:
+        if not meta['synthesized']:
+            raise
+        # the synthesized files are well formed by construction (c10_build.py): when plain sequential parsing of
+        # one of them fails, that is reported as a failing case of its own and the file is not explored
+        meta['broken'] = '%s: %s' % (type(ex).__name__, ex)
     _FILES[name] = meta
     return meta
 
@@ -747,6 +808,11 @@ def alphabet(meta, machine):
         ops += [['LineProg', u0], ['LineEntries', ul], ['CFI', 0]]
         ops += [['NewIterCUs', 0], ['NewIterDIEs', 0, u0], ['NewIterChildren', 1] + list(lab(pick['nos'])),
                 ['NewIterSiblings', 1] + list(lab(pick['withsib'])), ['Next', 0], ['Next', 1]]
+    elif machine == 'DF':
+        # call-frame information only: fetching the entry list and decoding its entries in every order
+        ops += [['CFI', 0], ['Disturb', 4, 5]]
+        for eh in (0, 1):
+            ops += [['CFIDecoded', eh, i] for i, e in enumerate(meta['cfi_ents'][eh]) if e[0] != 2]
     else:
         ids = meta['ids']
         dup = None
@@ -930,6 +996,10 @@ def random_op(rng, meta):
             choices.append(['CFI', 0])
         if meta['has_ehcfi']:
             choices.append(['CFI', 1])
+        for eh in (0, 1):
+            n = len(meta['cfi_ents'][eh])
+            if n:
+                choices += [['CFIDecoded', eh, rng.randrange(n)] for _ in range(3)]
         if full:
             u = rng.choice(full)
             ents = u.get('ents')
@@ -988,8 +1058,11 @@ def gen(ctx):
     stats = ctx.c10_stats = {}
     for name in ('A', 'B', 'C'):
         meta = load_file(name)
-        for machine in ('D', 'E'):
-            d = depth
+        if meta.get('broken'):
+            cases.append(('tab', [name, []]))
+            continue
+        for machine in ('D', 'E', 'DF'):
+            d = depth + 2 if machine == 'DF' else depth
             edges, nstates, closed = explore(meta, machine, d)
             while len(edges) > budget and d > 1:      # never silently: the bound actually used is in the evidence
                 d -= 1
@@ -1022,11 +1095,13 @@ def corpus(ctx):
     """the two deviations of DESIGN section 5, as minimal histories"""
     out = []
     c = load_file('C')
-    u0 = c['units'][0]['off']
-    out.append(('bfs', ['C', [['LineEntries', u0], ['LineProg', u0]]]))
+    if not c.get('broken'):
+        u0 = c['units'][0]['off']
+        out.append(('bfs', ['C', [['LineEntries', u0], ['LineProg', u0]]]))
     a = load_file('A')
-    out.append(('bfs', ['A', [['EGetTag', a['num_tags'] + 1]]]))
-    out.append(('bfs', ['A', [['ENumTags'], ['EGetTag', a['num_tags'] + 1]]]))
+    if not a.get('broken'):
+        out.append(('bfs', ['A', [['EGetTag', a['num_tags'] + 1]]]))
+        out.append(('bfs', ['A', [['ENumTags'], ['EGetTag', a['num_tags'] + 1]]]))
     v = 'testfiles_for_unittests/lib_versioned64.so.1.elf'
     out.append(('rnd', [v, [['EGetTag', 31]]]))
     out.append(('rnd', [v, [['ENumTags'], ['EGetTag', 31]]]))
@@ -1083,6 +1158,11 @@ def evaluate(ctx, cases):
     iso = {}
     for name, idxs in by_file.items():
         meta = load_file(name)
+        if meta.get('broken'):
+            for i in idxs:
+                ctx.record(cases[i][0], cases[i][1], impl=['err', meta['broken']], spec=['tabulated'], model=['tabulated'],
+                           in_domain=True, nontrivial=True, key='tabulate:' + name)
+            continue
         wf, nodef, fuel_ok = ctx.driver.one(['wf', meta['desc'], _fuel(meta)])
         wf = bool(wf) and bool(fuel_ok) and not meta.get('lp_disagree')
         if not wf:
@@ -1122,7 +1202,10 @@ def evaluate(ctx, cases):
         for i, (model, spec, valid, mstates) in zip(rnd, res):
             h = cases[i][1][1]
             impl, istates = run_impl(meta, h, stride=stride)
+            first_invalid = next((j for j, ok in enumerate(valid) if not ok), len(h))
             for j, (a, b) in enumerate(zip(istates, mstates)):
+                if min((j + 1) * stride, len(h)) > first_invalid:
+                    break          # after an operation outside the domain (it may raise half-way) states need not agree
                 t[0] += 1
                 if a != b:
                     t[1] += 1
